@@ -19,7 +19,7 @@ META = {
         'IC_PARTS_OF_SPEECH membership test; R3 the part-of-speech total is incremented once per (word, synset), outside the '
         'ancestor walk; R4 the weight is count/len(synsets) when distributing, else count, and unknown words are skipped; '
         'R5 _initialize gives every synset the smoothing value, folds satellites into adjectives and sets the totals; '
-        'R6 probability = weight / total of the part of speech and IC = -log(probability). R8 the ancestor walk stays in the given wordnet (C04-R7). R9 a synset on the walk that has no entry in the table - a placeholder inferred through an expand lexicon - is passed over, not indexed.'),
+        'R6 probability = weight / total of the part of speech and IC = -log(probability). R8 the ancestor walk stays in the given wordnet (C04-R7). R9 a synset on the walk that has no entry in the table - a placeholder inferred through an expand lexicon - is passed over, not indexed. R1 also: a visited synset is counted, the only further condition being its entry in the table.'),
     'decides': ['once-per-node accumulation', 'POS folding before indexing', 'total incremented once', 'weight formula shape',
                 'initialisation', 'probability formula shape'],
     'not_decided': ['conservation / monotonicity as numeric facts', 'load() from WordNet::Similarity files (value level)'],
